@@ -34,6 +34,8 @@ func exec(op string) vlib.Res {
 		return execLease(f)
 	case "chain":
 		return execChain(f)
+	case "doq":
+		return execDoQ(f)
 	case "pool":
 		return execPool(f)
 	case "share":
